@@ -68,8 +68,10 @@ CLAIMED = {
                "(complete for the finite state graph) for a starving loop with a released cycle.",
                "DESIGN.md section 4 C09"),
     "C10": _e1("Reset-rooted BMC of the bridge against a reference sequencer for 2-3 complete transfers with symbolic "
-               "requests, gaps, select masks and back-to-back transfers, plus all-state clauses (no strobe outside a "
-               "transfer, single-cycle ack) from a free state.", "DESIGN.md section 4 C10"),
+               "requests, gaps, select masks and back-to-back transfers (base case); induction over the transfer sequence "
+               "from every reachable sequencer state (all-SAT reachability of the control projection) with free data "
+               "registers, after any acknowledge and after a reset pulse in any state; idle-collapse lemma; all-state "
+               "clauses (no strobe outside a transfer, single-cycle ack) from a free state.", "DESIGN.md section 4 C10 and 13"),
     "C11": _e1("Real Register.__init__/__iter__/elaborate and flatten() on field collections from a grammar; one free "
                "frame decides packing, zero-elsewhere and strobe routing for every value against a declaration-order "
                "walk of the input structure; the finite access-compatibility table is executed.",
@@ -83,7 +85,8 @@ CLAIMED = {
                "DESIGN.md section 4 C13"),
     "C17": _e2("Real Builder.add/Cluster/Index/freeze/as_memory_map with real registers of enumerated widths and "
                "SYMBOLIC offsets: explicit placement, implicit first-size-aligned placement, power-of-two sizes, scope "
-               "names, no accepted overlap/overflow/name collision, frozen builder - proved on every path.",
+               "names, no accepted overlap/overflow/name collision, every refusal justified by the placement model, frozen "
+               "builder - proved on every path.",
                "DESIGN.md section 4 C17"),
     "C18": _e2("Real _Namespace / MemoryMap.Name / add_resource / add_window on names whose parts are symbolic choices "
                "from a 6-symbol alphabet (shared prefixes, '0' vs 0), as resources, named windows and absorbed "
